@@ -690,6 +690,13 @@ def loadStep (buf : Bytes) (x : XTable) (nEntries : Nat) (acc : Outcome (LObject
                 | .err _ => .ok (os, fromStm)       -- `ObjectStream::new(..).ok()?` drops the container too
                 | .panic s => .panic s)
              else .ok (os.insert id lo, fromStm)
+           | .pending d _ =>
+             -- a container whose content could not be delimited while parsing: `ObjectStream::new` runs on the still-empty
+             -- stream (no members) and the stream is NOT put on the deferred list (that happens in the `else` branch of the
+             -- ObjStm test): it stays empty. With a `Filter` the in-place `decompress()` also rewrites the dictionary: `ext`.
+             if Dict.getTypeIs d OBJSTM then
+               (if d.has FILTER then .err "ext" else .ok (os.insert id (.plain (.stream d [])), fromStm ++ [(e.1, [])]))
+             else .ok (os.insert id lo, fromStm)
            | _ => .ok (os.insert id lo, fromStm)))
      | .compressed _ _ => .ok (os, fromStm))
   | o => o
